@@ -64,7 +64,7 @@ def run():
     rep.set("replayed_states", len(sts))
     rep.set("replay_exhaustive", len(deeper) == len(all_states))
     d = workdir("traces/c10_A")
-    opts = {"all_targets": True, "field": True, "roles": ROLES}
+    opts = {"all_targets": True, "field": True, "roles": ROLES, "ref_calls": True}
     nproc = 16
     jobs = []
     r.shuffle(sts)
@@ -79,7 +79,7 @@ def run():
     with mp.Pool(16) as pool:
         results = pool.map(drv.replay_states, jobs)
     n_id = sum(x[0] for x in results[:len(jobs) - c["kappas"]])
-    expect = sum(len(st["kids"]) for st in sts) * len(calls)
+    expect = sum(len(st["kids"]) * (len(calls) + 4 * len(st["kids"])) for st in sts)      # palette calls + state-dependent (reference) calls
     if n_id != expect:
         raise MachineryError(f"harness executed {n_id} steps, expected {expect} (= objects x calls over the replayed states)")
     rep.phase("replay_A")
